@@ -6,6 +6,32 @@ ids = [p['id'] for p in props]
 E = 'exploration'; M = 'model_checking'; F = 'fault_enumeration'
 # id: (level, technique, level text, level_note, design_ref)
 checks = {
+ 'C17': (E, 'bounded-exhaustive enumeration of sources (corpus, seeds, expression grammar closed to depth 1/2 x statement contexts); every node of every tree checked against an independent scan and a re-parse',
+         'All nodes of all cleanly parsing trees of the pool: Pos/End on token boundaries of an independent scan, children nested/ordered/disjoint, stand-alone expression kinds re-parse from their source slice to an equal tree. Complete over the enumerated pool.',
+         'Necessary conditions only; nodes inside string/domain literals, implicit EmptyStmt, synthetic shadow-entry/file-name parts and the FuncType/receiver overlap (go/ast convention) are exempt.', '§2 C17'),
+ 'C19': (E, 'bounded-exhaustive enumeration of the formatter input pool in crash-attributing workers; re-parse oracle with structural tree equality',
+         'Every pool source (seeds, grammar depth 1/2, every repository XGo file) is formatted; output must parse and be structurally equal (astx.Equal) to the input tree modulo positions, comments, import order/duplicates and redundant parentheses.',
+         'Pool is finite and fully enumerated; sources that do not parse are outside the premise. Redundant-parenthesis removal (gofmt behaviour) is tolerated because a lost needed parenthesis still changes the re-parsed shape.', '§2 C19'),
+ 'C20': (E, 'bounded-exhaustive enumeration of the formatter input pool; byte equality of first and second pass',
+         'Every pool source is formatted twice; the second output must equal the first byte for byte.', 'Same pool as C19.', '§2 C20'),
+ 'C21': (E, 'bounded-exhaustive enumeration: every pool source x every token boundary x three comment styles',
+         'For every pool source of <=40 tokens a /*k*/, //k and # k comment is inserted at every token boundary (plus every source as is); the sequence of comment texts after formatting must equal the sequence before.',
+         'Comment texts compared after trimming each line; variants that no longer parse are outside the premise (counted).', '§2 C21'),
+ 'C23': (E, 'bounded-exhaustive enumeration of import blocks (spec sequences x blank-line groupings x block/single forms x doc comments) with an independent line-based reader',
+         'Every import block of <=3 (quick) / <=4 (thorough) specs from an 8-spec menu, every grouping, is formatted by format.Source; the (name,path) multiset, name/path pairing, comment texts and per-group sortedness are judged by a reader that does not use the ast package.',
+         'Dedup is allowed, never demanded; sortedness of one-import-per-declaration form is not judged (SortImports documents blocks only).', '§2 C23'),
+ 'C24': (E, 'bounded-exhaustive enumeration of scripts (all chunk sequences up to length 4/5 over a 14-chunk menu) against a reference splitter/classifier',
+         'Every script is rearranged by the real RearrangeFuncs and compared with a reference model (own depth-tracking splitter + Go-spec classifier): permutation of chunks, bytes preserved, untouched prefix, funcs first, stable order; SourceEx succeeds whenever format.Source succeeds on original or rearrangement.',
+         'package/import/comment placement accepted under any documented-silent reading (counted); chunks are newline-separated complete statements.', '§2 C24'),
+ 'C30': (E, 'bounded-exhaustive enumeration of list results and arithmetic expressions against own folds and a precedence-climbing evaluator',
+         'Real match results of R % sep grammars (1..4/5 elements, nested lists) through List/ListOp/RangeOp/BinaryOp/BinaryExpr variants compared with an independent left fold; three calculator grammars (README text) on every expression with <=3/4 operands vs a reference evaluator.',
+         'Division by zero excluded (statement silent); BinaryExprNR only on flat lists.', '§2 C30'),
+ 'C31': (E, 'bounded-exhaustive enumeration of all grammar-expression trees up to 5/7 nodes printed with minimal and full parentheses, plus every single-leaf deletion',
+         'Every tree is printed by an independent printer, parsed by the real tpl/parser and converted back for exact comparison; every leaf deletion must either still be a valid expression with the expected tree or be rejected with an error (never an empty rule).',
+         'One rule per grammar, blank-separated tokens; error text not judged.', '§2 C31'),
+ 'C37': (E, 'bounded-exhaustive enumeration of a declaration grid plus all repository Go files; printed-header equality after fromgo+togo',
+         'Every declaration of a large grid (func signatures x receivers x results, type expressions to depth 2/3, value expressions, struct/interface members, generics, const/var/import groups) and of 258 repository files is converted Go->XGo->Go and its go/printer text compared with the original (bodies emptied, comments stripped).',
+         'Only what go/printer prints is observable (e.g. SliceExpr.Slice3, BasicLit.Kind are not); empty non-nil Names slices normalised.', '§2 C37'),
  'C18': (E, 'complete enumeration of synthesised trees (every node type x every subset of optional child fields) plus all parsed corpus/seed files, reflection oracle independent of Walk',
          'For each of the 70 node types every subset of its optional child fields is populated and walked with both Walk and Inspect; the visit tree must equal the reflection-derived child tree (each child exactly once, nil after children). Parsed corpus and seed trees additionally check sibling order by position. The node-type x field-subset space is finite and fully covered.',
          'Optional = documented \"or nil\" in ast/*.go or slice/map/any; synthetic parts (name of a file without package clause, non-body parts of shadow funcs) and FuncType position are exempt; deeper combinations than one node with leaf children are covered only through parsed trees.', '§2 C18'),
